@@ -18,7 +18,8 @@ Definition PK_type (t : ftype) : Prop :=
                        meetsK_present kc env t o v = true) /\
   (forall inmap v x, umk_elem kc inmap t v = Ok x <->
                      decodeK_elem kc inmap t v = Some x /\ meetsK_elem kc t v = true) /\
-  (forall x, umk_absent kc t = Ok x <-> decodeK_absent kc t = Some x /\ meetsK_absent kc t = true).
+  (forall x, umk_absent kc t = Ok x <-> decodeK_absent kc t = Some x /\ meetsK_absent kc t = true) /\
+  (forall d x, umk_default kc t d = Ok x <-> decodeK_default kc t d = Some x /\ meetsK_default kc t d = true).
 
 Definition PK_fields (fs : fields) : Prop :=
   forall env ob xs, umk_fields kc env fs ob = Ok xs <->
@@ -66,12 +67,13 @@ Lemma mainK_mutual : (forall t, PK_type t) /\ (forall fs, PK_fields fs /\ QK_fie
 Proof.
   apply (ftype_fields_ind PK_type (fun fs => PK_fields fs /\ QK_fields fs)).
   - (* TPrim *)
-    intro k. unfold PK_type. simpl. cbn [umk_absent decodeK_absent meetsK_absent]. split; [|split].
+    intro k. unfold PK_type. simpl. cbn [umk_absent decodeK_absent meetsK_absent umk_default decodeK_default meetsK_default]. split; [|split; [|split]].
     + intros env o b v x. apply prim_present_iff.
     + intros inmap v x. rewrite prim_elem_iff. split; [intro H; auto | intros [H _]; exact H].
     + intro x. split; [discriminate | intros [_ H]; discriminate].
+    + intros d x. rewrite of_opt_ok. split; [intro H; auto | intros [H _]; exact H].
   - (* TPtr *)
-    intros t [IHp [IHe IHa]]. unfold PK_type. simpl. cbn [umk_absent decodeK_absent meetsK_absent]. split; [|split].
+    intros t [IHp [IHe [IHa IHd]]]. unfold PK_type. simpl. cbn [umk_absent decodeK_absent meetsK_absent umk_default decodeK_default meetsK_default]. split; [|split; [|split]].
     + intros env o b v x. rewrite rmap_ok, omap_some. split.
       * intros [a [H1 H2]]. apply IHp in H1. destruct H1. split; [exists a; auto | auto].
       * intros [[a [H1 H2]] H3]. exists a. split; [apply IHp; auto | auto].
@@ -81,18 +83,28 @@ Proof.
     + intros x. rewrite rmap_ok, omap_some. split.
       * intros [a [H1 H2]]. apply IHa in H1. destruct H1. split; [exists a; auto | auto].
       * intros [[a [H1 H2]] H3]. exists a. split; [apply IHa; auto | auto].
+    + intros d x. rewrite rmap_ok, omap_some. split.
+      * intros [a [H1 H2]]. apply IHd in H1. destruct H1. split; [exists a; auto | auto].
+      * intros [[a [H1 H2]] H3]. exists a. split; [apply IHd; auto | auto].
   - (* TSlice *)
-    intros e IH. unfold PK_type. simpl. cbn [umk_absent decodeK_absent meetsK_absent]. split; [|split].
+    intros e IH. unfold PK_type. simpl. cbn [umk_absent decodeK_absent meetsK_absent umk_default decodeK_default meetsK_default]. split; [|split; [|split]].
     + intros env o b v x. apply sliceK_case. exact IH.
     + intros inmap v x. apply sliceK_case. exact IH.
     + intro x. split; [discriminate | intros [_ H]; discriminate].
+    + intros d x. destruct (slice_default_doc e d) as [[| | | |l| |]|];
+        try (split; [discriminate | intros [H _]; discriminate]).
+      * destruct (elem_is_string e).
+        -- split. ++ intro H. inversion H. auto. ++ intros [H _]. inversion H. reflexivity.
+        -- split; [discriminate | intros [H _]; discriminate].
+      * destruct IH as [_ [IHe _]]. apply slice_with_iff. intros a b _. apply IHe.
   - (* TMap *)
-    intros e IH. unfold PK_type. simpl. cbn [umk_absent decodeK_absent meetsK_absent]. split; [|split].
+    intros e IH. unfold PK_type. simpl. cbn [umk_absent decodeK_absent meetsK_absent umk_default decodeK_default meetsK_default]. split; [|split; [|split]].
     + intros env o b v x. apply mapK_case. exact IH.
     + intros inmap v x. apply mapK_case. exact IH.
     + intro x. split. * intro H. inversion H. auto. * intros [H _]. inversion H. reflexivity.
+    + intros d x. split; [discriminate | intros [H _]; discriminate].
   - (* TStruct *)
-    intros fs [IH _]. unfold PK_type. simpl. cbn [umk_absent decodeK_absent meetsK_absent]. split; [|split].
+    intros fs [IH _]. unfold PK_type. simpl. cbn [umk_absent decodeK_absent meetsK_absent umk_default decodeK_default meetsK_default]. split; [|split; [|split]].
     + intros env o b v x. apply structK_case. exact IH.
     + intros inmap v x. apply structK_case. exact IH.
     + intro x. destruct (required_fields fs); simpl.
@@ -100,6 +112,7 @@ Proof.
       * rewrite rmap_ok, omap_some. split.
         -- intros [a [H1 H2]]. apply IH in H1. destruct H1. split; [exists a; auto | auto].
         -- intros [[a [H1 H2]] H3]. exists a. split; [apply IH; auto | auto].
+    + intros d x. split; [discriminate | intros [H _]; discriminate].
   - (* FNil *)
     split.
     { unfold PK_fields. simpl. intros env ob xs. split.
@@ -107,7 +120,7 @@ Proof.
     { intros env ob filled xs b. simpl. split.
       + intro H. inversion H. auto. + intros [H [_ Hb]]. inversion H. subst. reflexivity. }
   - (* FCons *)
-    intros key o t [IHp [IHe IHa]] rest [IHr IHrq]. split.
+    intros key o t [IHp [IHe [IHa IHd]]] rest [IHr IHrq]. split.
     { unfold PK_fields. intros env ob xs. simpl.
     rewrite bind_ok. split.
     + intros [x [Hx Hrest]].
@@ -120,7 +133,7 @@ Proof.
       { inversion Hx. auto. }
       cut ((match field_inputK kc env t key ob with
             | None => match opt_default o with
-                      | Some d => decode_default t d
+                      | Some d => decodeK_default kc t d
                       | None => if declared_optional o ob then Some (zero t) else decodeK_absent kc t
                       end
             | Some JNull => Some (zero t)
@@ -128,7 +141,7 @@ Proof.
             end = Some x) /\
            (match field_inputK kc env t key ob with
             | None => match opt_default o with
-                      | Some _ => true
+                      | Some d => meetsK_default kc t d
                       | None => declared_optional o ob || meetsK_absent kc t
                       end
             | Some JNull => declared_optional o ob
@@ -140,7 +153,7 @@ Proof.
       * destruct v; try (apply IHp in Hx; exact Hx).
         destruct (declared_optional o ob); [|discriminate]. inversion Hx. auto.
       * destruct (opt_default o) as [d|].
-        -- apply um_default_iff in Hx. auto.
+        -- apply IHd in Hx. exact Hx.
         -- destruct (declared_optional o ob); simpl.
            ++ inversion Hx. auto.
            ++ apply IHa in Hx. exact Hx.
@@ -161,7 +174,7 @@ Proof.
         -- destruct v; try (apply IHp; auto).
            rewrite Hmf. inversion Hx. reflexivity.
         -- destruct (opt_default o) as [d|].
-           ++ apply um_default_iff. exact Hx.
+           ++ apply IHd. auto.
            ++ destruct (declared_optional o ob); simpl in *.
               ** inversion Hx. reflexivity.
               ** apply IHa. auto.
@@ -275,7 +288,8 @@ Variable kc : kcfg.
 Definition NK_type (t : ftype) : Prop :=
   (forall env ro v, umk_present kc env t ro v <> Panic) /\
   (forall inmap v, umk_elem kc inmap t v <> Panic) /\
-  umk_absent kc t <> Panic.
+  umk_absent kc t <> Panic /\
+  (forall d, umk_default kc t d <> Panic).
 Definition NK_fields (fs : fields) : Prop :=
   (forall env ob, umk_fields kc env fs ob <> Panic) /\
   (forall env ob filled, umk_opt_members kc env fs ob filled <> Panic).
@@ -283,36 +297,43 @@ Definition NK_fields (fs : fields) : Prop :=
 Lemma no_panicK_mutual : (forall t, NK_type t) /\ (forall fs, NK_fields fs).
 Proof.
   apply ftype_fields_ind.
-  - intro k. unfold NK_type. simpl. cbn [umk_absent]. repeat split.
+  - intro k. unfold NK_type. simpl. cbn [umk_absent umk_default]. repeat split.
     + intros. apply prim_present_no_panic.
     + intros. apply prim_elem_no_panic.
     + discriminate.
-  - intros t [Hp [He Ha]]. unfold NK_type. simpl. cbn [umk_absent]. repeat split.
+    + intro d. unfold of_opt. destruct (conv_string k d); discriminate.
+  - intros t [Hp [He [Ha Hd]]]. unfold NK_type. simpl. cbn [umk_absent umk_default]. repeat split.
     + intros. apply rmap_no_panic. apply Hp.
     + intros inmap v. specialize (He inmap v).
       destruct (umk_elem kc inmap t v); simpl; try discriminate. contradiction.
     + apply rmap_no_panic. exact Ha.
-  - intros e [Hp [He Ha]]. unfold NK_type. simpl. cbn [umk_absent]. repeat split.
+    + intro d. apply rmap_no_panic. apply Hd.
+  - intros e [Hp [He [Ha Hd]]]. unfold NK_type. simpl. cbn [umk_absent umk_default]. repeat split.
     + intros env ro v. destruct v; try discriminate. apply slice_with_no_panic. apply He.
     + intros inmap v. destruct v; try discriminate. apply slice_with_no_panic. apply He.
     + discriminate.
-  - intros e [Hp [He Ha]]. unfold NK_type. simpl. cbn [umk_absent]. repeat split.
+    + intro d. destruct (slice_default_doc e d) as [[| | | |l| |]|]; try discriminate.
+      * destruct (elem_is_string e); discriminate.
+      * apply slice_with_no_panic. apply He.
+  - intros e [Hp [He [Ha Hd]]]. unfold NK_type. simpl. cbn [umk_absent umk_default]. repeat split.
     + intros env ro v. destruct v; try discriminate. apply map_with_no_panic. apply He.
     + intros inmap v. destruct v; try discriminate. apply map_with_no_panic. apply He.
     + discriminate.
-  - intros fs [Hf _]. unfold NK_type. simpl. cbn [umk_absent]. repeat split.
+    + discriminate.
+  - intros fs [Hf _]. unfold NK_type. simpl. cbn [umk_absent umk_default]. repeat split.
     + intros env ro v. destruct v; try discriminate. apply rmap_no_panic. apply Hf.
     + intros inmap v. destruct v; try discriminate. apply rmap_no_panic. apply Hf.
     + destruct (required_fields fs); try discriminate. apply rmap_no_panic. apply Hf.
+    + discriminate.
   - unfold NK_fields. simpl. split; discriminate.
-  - intros key o t [Hp [He Ha]] rest [Hr Hrq]. unfold NK_fields. split.
+  - intros key o t [Hp [He [Ha Hd]]] rest [Hr Hrq]. unfold NK_fields. split.
     + intros env ob. simpl. apply bind_no_panic.
       * apply bind_no_panic; [apply guard_no_panic|]. intros _.
         apply bind_no_panic; [apply resolve_no_panic|]. intro ro.
         destruct (ignored key); [discriminate|].
         destruct (field_inputK kc env t key ob) as [v|].
         -- destruct v; try apply Hp. destruct (ro_optional ro); discriminate.
-        -- destruct (ro_default ro). ++ apply um_default_no_panic.
+        -- destruct (ro_default ro). ++ apply Hd.
            ++ destruct (ro_optional ro); [discriminate | exact Ha].
       * intro x. apply bind_no_panic; [apply Hr|]. intro xs. discriminate.
     + intros env ob filled. simpl. apply bind_no_panic.
